@@ -56,12 +56,20 @@ def programs(draw):
         else:
             spec['src'] = draw(any_src(fr_resp))
             spec['sub'] = draw(gen.sub_spec(full_credit=False))
+            if draw(st.integers(0, 2)) == 0:
+                # a subscriber that still asks for more after it has cancelled (Reactive Streams 3.6: legal, to be ignored)
+                spec['sub'] = dict(spec['sub'], request_after_cancel=True)
             if spec['src'].get('pace') and draw(st.booleans()):
                 # enough credit for a paced source to pull everything at once: what it then holds is a backlog
                 spec['sub'] = dict(spec['sub'], n0=gen.MAXN)
         if k == 'ch':
             spec['rsrc'] = draw(st.one_of(st.none(), any_src(fr_req)))
             spec['rsub'] = draw(st.one_of(st.none(), gen.sub_spec(False), gen.sub_spec(False)))
+            if draw(st.integers(0, 2)) == 0:
+                # subscribers that still ask for more after they have cancelled (legal, to be ignored)
+                spec['sub'] = dict(spec['sub'], request_after_cancel=True)
+                if spec['rsub'] is not None:
+                    spec['rsub'] = dict(spec['rsub'], request_after_cancel=True)
         inter.append(spec)
     single = st.one_of(
         st.just(('start',)),
@@ -83,6 +91,9 @@ def programs(draw):
                                                    ('deliver', 'c', None), ('deliver', 's', None), ('tick', 2)]),
         # cancel right after the request, pumped
         st.just([('start',), ('cancel', -1, 'resp')]),
+        # cancel, and ask for more afterwards
+        st.tuples(st.integers(0, 3), st.sampled_from(['resp', 'req']), st.sampled_from([1, 5])).map(
+            lambda a: [('tick', 2), ('cancel', a[0], a[1]), ('tick', 2), ('req', a[0], a[1], a[2]), ('tick', 3)]),
         # cancel some (virtual) milliseconds into the stream: a paced publisher has pulled ahead of what it has handed over
         st.integers(1, 90).map(lambda t: [('regime', 'pumped'), ('start',), ('adv', t), ('cancel', -1, 'resp'), ('adv', 120), ('tick', 3)]),
         # cancel while elements are in flight
